@@ -332,6 +332,36 @@ def d5_jack(ctx, lin):
     ctx.check(rule, 'linalg.py:einsum#conversion', vals == ['_exp_to_jack_c(op)', '_exp_to_jack(op)', 'op'], 'each operand is converted once with the exporter of its kind', 'conversions %s' % vals)
 
 
+def d6_einsum_importer(ctx, lin, rule='C10-D5'):
+    """jackknife einsum: whether the result is complex is a property of the contracted jackknife samples (one complex operand, in any
+    position, makes it complex): the importer is chosen by the dtype of the result, not by the first Obs-valued operand"""
+    f = lin.func('einsum')
+    calls = [c for c in walk(f) if isinstance(c, ast.Call) and call_name(c) in ('_imp_from_jack', '_imp_from_jack_c') and mod_stmt_is_toplevel(lin, c, f)]
+    ok = bool(calls)
+    why = ''
+    for c in calls:
+        g = [unparse(t) for t, pol in guards_of(lin, c, stop=f)]
+        if not any('.dtype' in x for x in g):
+            ok = False
+            why = '`%s` is reached under %s' % (unparse(c), g)
+    indirect = [c for c in walk(f) if isinstance(c, ast.Call) and isinstance(c.func, ast.Name) and c.func.id not in ('_imp_from_jack', '_imp_from_jack_c')
+                and any(isinstance(s_, ast.Assign) and unparse(s_.targets[0]) == c.func.id and unparse(s_.value) in ('_imp_from_jack', '_imp_from_jack_c') for s_ in statements(f))]
+    if indirect:
+        ok = False
+        why = 'the importer `%s` is chosen while the operands are scanned' % unparse(indirect[0].func)
+    ctx.check(rule, 'linalg.py:einsum#importer-by-result-dtype', ok, 'complex result -> complex importer, real result -> real importer (decided on jack_einsum.dtype)',
+              'the importer of the result is not selected by the dtype of the contracted samples (%s): a real Obs operand listed before a complex one sends complex samples through the real importer' % why, lin.loc(f))
+
+
+def mod_stmt_is_toplevel(lin, c, f):
+    q = lin.parents.get(c)
+    while q is not None and q is not f:
+        if isinstance(q, (ast.FunctionDef, ast.Lambda)):
+            return False
+        q = lin.parents.get(q)
+    return True
+
+
 def run(ctx):
     ctx.rule('C10-D1', 'autograd discipline of functions handed to derived_observable')
     ctx.rule('C10-D2', 'complex matrix product (non-commuting), operand layout, part selection')
@@ -348,6 +378,7 @@ def run(ctx):
     from . import C01
     ctx.guarded('C10-D4', 'obs.py:derived_observable@array_mode', C01.derived_alignment, ctx, ctx.repo.mod('obs'), 'C10-D4')
     ctx.guarded('C10-D5', 'linalg.py@jack', d5_jack, ctx, lin)
+    ctx.guarded('C10-D5', 'linalg.py:einsum@importer', d6_einsum_importer, ctx, lin)
     from .. import unusedparams, leakedloop
     ctx.rule('C10-D6', 'every accepted option is read (no silently ignored parameter); no loop variable read after its loop')
     for mn_ in ('linalg',):
